@@ -254,11 +254,11 @@ func main() {
 	for _, p := range [][2]int{{4, 4}, {3, 3}, {7, 5}, {4, 8}} {
 		cases = append(cases, &bftsim.Case{Kind: "script", Label: "late-fork-in-finalized-epoch", Script: lateForkInFinalizedEpoch(p[0], uint32(p[1]))})
 	}
-	nTree := ctx.Scale(220, 6000)
+	nTree := ctx.Scale(900, 20000)
 	for i := 0; i < nTree; i++ {
 		cases = append(cases, &bftsim.Case{Kind: "script", Label: "tree", Script: bftsim.GenTree(r.Fork(uint64(i)), ctx.Thorough())})
 	}
-	nNet := ctx.Scale(40, 1000)
+	nNet := ctx.Scale(150, 3000)
 	for i := 0; i < nNet; i++ {
 		cases = append(cases, &bftsim.Case{Kind: "script", Safety: true, Label: "net", Script: bftsim.GenNet(r.Fork(uint64(1_000_000+i)), ctx.Thorough())})
 	}
